@@ -85,6 +85,13 @@ def groups(R, thorough):
             ("scalar=seeded-small", le(int.from_bytes(bytes(vlib.prng_bytes(R.seed, "c19/exts2", 32)), "little") >> 5))]
     g.append(("ed_sign_ext/msg96", "ed_sign_ext", [(l, s + pre, None) for l, s in exts[: (len(exts) if thorough else 6)]]))
     g.append(("ed_exchange", "ed_exchange", [(l, s, None) for l, s in secrets32(R, "ex", kc)]))
+    # the same curve victims on the build with the 32-bit field / scalar back-end (group name prefix "f32:")
+    kf = 12 if thorough else 3
+    g.append(("f32:x25519/u=9", "x25519", [(l, s, None) for l, s in secrets32(R, "fx", kf)]))
+    g.append(("f32:x25519_base", "x25519_base", [(l, s, None) for l, s in secrets32(R, "fxb", kf)]))
+    g.append(("f32:ed_keypair", "ed_keypair", [(l, s, None) for l, s in secrets32(R, "fek", kf + 2)]))
+    g.append(("f32:ed_sign/msg96", "ed_sign", [(l, s, None) for l, s in secrets32(R, "fes", kf)]))
+    g.append(("f32:ed_sign_ext/msg96", "ed_sign_ext", [(l, s + pre, None) for l, s in exts[:4]]))
     g.append(("x25519_newtype", "x25519_newtype", [(l, s, None) for l, s in secrets32(R, "xn", kc)]))
     # AEAD tag verification: the candidate tag is right, or wrong from byte i on / in byte i only, for every i, through the one-shot and the incremental interface
     masks = [("tag:right", [0] * 16)]
@@ -162,13 +169,16 @@ def run(R):
     build_tracer()
     binp = vlib.build("rel")
     R.builds.append("rel")
+    binf = vlib.build("f32")
+    R.builds.append("f32")
     gs = groups(R, thorough)
+    bin_of = lambda gi: binf if gs[gi][0].startswith("f32:") else binp
     jobs = [(gi, ci, v, s, p) for gi, (name, v, cases) in enumerate(gs) for ci, (l, s, p) in enumerate(cases)]
     # long victims first
     order = sorted(jobs, key=lambda j: 0 if gs[j[0]][1] in ("x25519", "x25519_base", "ed_keypair", "ed_sign") else 1)
     results = {}
     with cf.ThreadPoolExecutor(max_workers=vlib.NCPU) as ex:
-        futs = {ex.submit(trace, binp, v, s, p): (gi, ci) for (gi, ci, v, s, p) in order}
+        futs = {ex.submit(trace, bin_of(gi), v, s, p): (gi, ci) for (gi, ci, v, s, p) in order}
         for f in cf.as_completed(futs):
             results[futs[f]] = f.result()
     merged, base = [], []
@@ -198,11 +208,12 @@ def run(R):
             ca = [c for c in r["cases"] if c["label"] == la][0]
             cb = [c for c in r["cases"] if c["label"] == lb][0]
             k = max(0, v["position"] - 2)
-            pa = trace(binp, r["victim"], ca["secret"], ca["public"], dump=(k, k))
-            pb = trace(binp, r["victim"], cb["secret"], cb["public"], dump=(k, k))
+            bx = binf if r["group"].startswith("f32:") else binp
+            pa = trace(bx, r["victim"], ca["secret"], ca["public"], dump=(k, k))
+            pb = trace(bx, r["victim"], cb["secret"], cb["public"], dump=(k, k))
             j = next((i for i in range(min(len(pa), len(pb))) if pa[i] != pb[i]), min(len(pa), len(pb)))
             at = pa[j - 1] if j > 0 else (pa[0] if pa else 0)
-            sym = subprocess.run(["llvm-symbolizer-14", "--obj=" + binp, hex(at - 0x555555554000 if at >= 0x555555554000 else at)], capture_output=True, text=True).stdout.strip().replace("\n", " ")
+            sym = subprocess.run(["llvm-symbolizer-14", "--obj=" + bx, hex(at - 0x555555554000 if at >= 0x555555554000 else at)], capture_output=True, text=True).stdout.strip().replace("\n", " ")
             v["desc"] = dict(v["desc"], diverges_after=hex(at), where=sym[:300], copies="%s vs %s" % (la, lb))
             vlib.log("  divergence in %s between %s and %s after %s %s" % (r["group"], la, lb, hex(at), sym[:200]))
         except Exception as ex:            # localisation is a convenience; the verdict stands without it
@@ -221,8 +232,8 @@ def run(R):
 def replay(R, rp):
     """re-trace the two blamed copies of a replay file and validate them again in lock-step"""
     build_tracer()
-    binp = vlib.build("rel")
     r = rp["history"]
+    binp = vlib.build("f32" if r.get("group", "").startswith("f32:") else "rel")
     la, lb = rp["expected"][0], rp["observed"][0]
     cases = [c for c in r["cases"] if c["label"] in (la, lb)]
     streams = [trace(binp, r["victim"], c["secret"], c["public"]) for c in cases]
